@@ -40,7 +40,8 @@ def plan(tier, seed):
 def floors(tier):
     return {"distinct_nontrivial": 300, "variants_compared": 5000, "cls:variant_syntactically_different": 3000,
             "cls:decl_order_permuted": 1000, "cls:sel_order_permuted": 500, "cls:split_top_and": 100,
-            "cls:nvars=3": 300, "cls:nvars=4": 100, "cls:for_all_query": 200, "cls:flatten_query": 100, "cls:flatten_of_plain_numbers": 60, "cls:concatenate_query": 100, "cls:feature_interaction_query": 150}
+            "cls:nvars=3": 300, "cls:nvars=4": 100, "cls:for_all_query": 200, "cls:flatten_query": 100, "cls:flatten_of_plain_numbers": 60, "cls:concatenate_query": 100, "cls:feature_interaction_query": 150,
+            "cls:subquery_operand_before_its_parent_is_bound": 100}
 
 
 def cases(spec, ctx):
@@ -83,6 +84,20 @@ def cases(spec, ctx):
             yield {"ixperm": c_, "perms": perms}
             continue
         if rng.random() < 0.06:
+            # a nested an() over a flattened element used as an OPERAND, in a conjunct that comes before or after the conjunct
+            # on the parent (the parent is not bound yet when the sub-query comes first); parent domain permuted
+            from .. import ix
+            w = ix.gen_world(rng)
+            n = len(w["parents"])
+            variants = []
+            for _ in range(4):
+                pr = list(range(n))
+                rng.shuffle(pr)
+                variants.append({"perm": pr, "swap": rng.random() < 0.5, "contains": rng.random() < 0.5})
+            yield {"subq_operand": w, "thr": rng.randint(1, 5), "names": sorted(rng.sample(range(1, 7), rng.randint(1, 4))),
+                   "k": rng.randint(1, 4), "variants": variants}
+            continue
+        if rng.random() < 0.06:
             # membership in the concatenated collection of a parent that an earlier conjunct binds; parent domain permuted and
             # the two conjuncts on the member swapped
             from . import c16
@@ -112,7 +127,8 @@ def cases(spec, ctx):
             yield {"forall": fc, "variants": variants}
             continue
         nv_hi = 4 if rng.random() < 0.3 else 3
-        case = multi.gen_case(rng, nvars=(1, nv_hi), depth=(1, 4), allow_expr_sel=False)
+        # (a share of the selections contain an attribute expression next to plain variables: set_of([x.a, y], ...))
+        case = multi.gen_case(rng, nvars=(1, nv_hi), depth=(1, 4), allow_expr_sel=rng.random() < 0.5)
         nv = len(case["kinds"])
         variants = []
         for _ in range(3):
@@ -136,7 +152,7 @@ def _rows(case, world, v, caching=True):
     """rows as frozensets of (variable index, label) so that selection order does not matter"""
     cc = {"world": case["world"], "kinds": case["kinds"], "cond": v["cond"], "sel": v["sel"]}
     got = multi.evaluate(cc, world, caching=caching, order=v.get("order"), perm=v.get("perm"), split_top_and=v.get("split", False))[0]
-    return [frozenset(zip(v["sel"], r)) for r in got]
+    return [frozenset(zip([s_ if isinstance(s_, int) else repr(s_) for s_ in v["sel"]], r)) for r in got]
 
 
 def check_forall_case(case, ctx):
@@ -271,7 +287,54 @@ def check_ixperm_case(case, ctx):
     ctx.sample({"feature_interaction": {k: c[k] for k in ("c0", "c1", "atoms", "sel")}, "rows": len(base)})
 
 
+def check_subq_operand_case(case, ctx):
+    """an(entity(p, and_(in_(big.n, names), p.k >= k))) with big = an(entity(e, e.n >= t)), e = flatten(p.items)"""
+    from entity_query_language import symbolic_mode, an, entity, let, and_, in_, contains
+    from entity_query_language.entity import flatten
+    from .. import ix
+    ctx.cls("cls:subquery_operand_before_its_parent_is_bound")
+    names = tuple(case["names"])
+
+    def rows(perm, swap, use_contains):
+        es, ps = ix.build_world(case["subq_operand"], perm)
+        with symbolic_mode():
+            p = let(ix.Par, ps)
+            e = flatten(p.items)
+            big = an(entity(e, e.n >= case["thr"]))
+            holds_big = contains(names, big.n) if use_contains else in_(big.n, names)
+            roomy = p.k >= case["k"]
+            q = an(entity(p, and_(roomy, holds_big) if swap else and_(holds_big, roomy)))
+        idx = {id(x): i for i, x in enumerate(ps)}
+        got = {idx[id(r)] for r in q.evaluate()}
+        return {(perm[i] if perm else i) for i in got}
+
+    try:
+        es, ps = ix.build_world(case["subq_operand"])
+        exp = {i for i, p in enumerate(ps) if p.k >= case["k"] and any(x.n >= case["thr"] and x.n in names for x in p.items)}
+        base = rows(None, False, False)
+        if base != exp:
+            ctx.fail("SUBQ_OPERAND:oracle", {"expected": sorted(exp), "observed": sorted(base)})
+            return
+        for vi, v in enumerate(case["variants"]):
+            ctx.count("variants_compared")
+            ctx.cls("cls:variant_syntactically_different")
+            alt = rows(v["perm"], v["swap"], v["contains"])
+            if alt != base:
+                ctx.fail("SUBQ_OPERAND_SET:" + ("missing" if base - alt else "") + ("+extra" if alt - base else ""),
+                         {"variant": v, "only_base": sorted(base - alt), "only_variant": sorted(alt - base)}, variant=vi)
+                return
+    except Exception as e:
+        import traceback
+        ctx.fail("EXC", f"subq_operand: {type(e).__name__}: {e}\n{traceback.format_exc()[-500:]}")
+        return
+    if 0 < len(exp) < len(ps):
+        ctx.nontrivial()
+    ctx.sample({"subq_operand": True, "rows": len(base)})
+
+
 def check_case(case, ctx):
+    if "subq_operand" in case:
+        return check_subq_operand_case(case, ctx)
     if "ixperm" in case:
         return check_ixperm_case(case, ctx)
     if "concat" in case:
@@ -310,8 +373,8 @@ def check_case(case, ctx):
             return
         if set(alt) != set(base):
             ctx.fail("SET:" + ("missing" if set(base) - set(alt) else "") + ("+extra" if set(alt) - set(base) else ""),
-                     {"variant": vi, "variant_condition": v["cond"], "only_base": [sorted(r) for r in set(base) - set(alt)][:6],
-                      "only_variant": [sorted(r) for r in set(alt) - set(base)][:6]}, variant=vi)
+                     {"variant": vi, "variant_condition": v["cond"], "only_base": [sorted(r, key=str) for r in set(base) - set(alt)][:6],
+                      "only_variant": [sorted(r, key=str) for r in set(alt) - set(base)][:6]}, variant=vi)
             break
         if allsel and Counter(alt) != Counter(base):
             ctx.fail("MULTIPLICITY", {"variant": vi, "rows_base": len(base), "rows_variant": len(alt)}, variant=vi)
@@ -324,7 +387,7 @@ def check_case(case, ctx):
 def classify(f, ctx):
     """A variant that disagrees with the base: decide with the oracle which side is wrong, then K05 attribution on it."""
     case = f["case"]
-    if "flatten" in case or "concat" in case or "ixperm" in case:
+    if "flatten" in case or "concat" in case or "ixperm" in case or "subq_operand" in case:
         return None
     if "forall" in case:
         if f["kind"] not in ("FORALL_SET:missing", "FORALL_SET:+extra") or "variant" not in f:
